@@ -305,6 +305,24 @@ def chunking_idiom(prog, rep: Report, rule: str, f: Func, role: str, cls: Option
     loops = [s for s in stmts if isinstance(s, ast.For)]
     accs = [s for s in stmts if isinstance(s, ast.Assign) and len(s.targets) == 1 and isinstance(s.targets[0], ast.Name)
             and isinstance(s.value, (ast.List, ast.Call, ast.ListComp))]
+    if len(loops) == 1:
+        # an accumulator that is object state (self.<field>, or a local alias of it) outlives the generator call
+        alias = {s.targets[0].id: s.value for s in walk_own(f.node) if isinstance(s, ast.Assign) and len(s.targets) == 1
+                 and isinstance(s.targets[0], ast.Name) and isinstance(s.value, ast.Attribute)
+                 and isinstance(s.value.value, ast.Name) and s.value.value.id == f.self_name}
+        for n in ast.walk(loops[0]):
+            if isinstance(n, ast.Call) and isinstance(n.func, ast.Attribute) and n.func.attr == "append":
+                b = n.func.value
+                while isinstance(b, ast.Subscript):
+                    b = b.value
+                state = alias.get(b.id) if isinstance(b, ast.Name) else b if (isinstance(b, ast.Attribute) and isinstance(b.value, ast.Name)
+                                                                               and b.value.id == f.self_name) else None
+                if state is not None and not any(a.targets[0].id == getattr(b, "id", None) for a in accs):
+                    rep.viol(rule, f, role, f"the batch under construction is object state (`{src(state)}`), not a container created by this "
+                             f"call of {f.name}: a second pass over the same object starts with the leftovers of the previous one",
+                             scenario="it = BatcherIter([1], 1); list(it); list(it) -> [[1, 1]] (or one oversized batch); batches kept "
+                                      "from an abandoned pass are extended by the next", line=n.lineno)
+                    return
     if len(loops) != 1 or not accs:
         rep.unrec(rule, f, role, "accumulator initialisation and a single element loop not found")
         return
